@@ -60,11 +60,11 @@ KILL_FILTERS = {
 
 
 def run_program(prog, prefix=(), kinds=("P", "T", "K"), kill_code=-9, track_states=True,
-                monitors=(), horizon=50_000, kill_when=None):
+                monitors=(), horizon=50_000, kill_when=None, starve=None):
     pool = prog.get("pool", {})
     S = K.Sched(prefix, kinds=kinds, kill_code=kill_code, horizon=horizon,
                 pipe_cap=pool.get("pipe_cap", 65536), track_states=track_states,
-                kill_filter=KILL_FILTERS[kill_when])
+                kill_filter=KILL_FILTERS[kill_when], starve=starve)
     K.S = S
     tasks.reset()
     gc_was = gc.isenabled()
@@ -335,6 +335,7 @@ def do_op(ctx, op, entry):
         # a submit that is expected to raise (after shutdown / on a broken pool)
         e = ctx["e"]
         entry["broken_at_call"] = e._flags.broken is not None
+        entry["shutdown_at_call"] = e._flags.shutdown
         try:
             f = e.submit(tasks.ok, op[1], 0)
             rec.futures[op[1]] = f
